@@ -748,10 +748,12 @@ impl Expression {
                 match ps.peek::<0>() {
                     Some(d) if ('0'..='7').contains(&d) => {
                         // parse as OCT
-                        let mut num = 0i64;
+                        let mut num = Some(0i64);
+                        let mut float_num = 0f64;
                         loop {
                             let d = ps.next().unwrap() as i64 - '0' as i64;
-                            num = num * 8 + d;
+                            num = num.and_then(|x| x.checked_mul(8)?.checked_add(d));
+                            float_num = float_num * 8. + d as f64;
                             let Some(peek) = ps.peek::<0>() else { break };
                             if !is_ident_char(peek) {
                                 break;
@@ -763,15 +765,22 @@ impl Expression {
                                 return None;
                             }
                         }
-                        return Some(Box::new(Expression::LitInt {
-                            value: num,
-                            location: pos..ps.position(),
+                        return Some(Box::new(match num {
+                            Some(value) => Expression::LitInt {
+                                value,
+                                location: pos..ps.position(),
+                            },
+                            None => Expression::LitFloat {
+                                value: float_num,
+                                location: pos..ps.position(),
+                            },
                         }));
                     }
                     Some('x') => {
                         // parse as HEX
                         ps.next(); // 'x'
-                        let mut num = 0i64;
+                        let mut num = Some(0i64);
+                        let mut float_num = 0f64;
                         let peek = ps.peek::<0>()?;
                         if !('0'..='9').contains(&peek)
                             && !('a'..='f').contains(&peek)
@@ -803,7 +812,8 @@ impl Expression {
                                 'f' | 'F' => 15,
                                 _ => unreachable!(),
                             };
-                            num = num * 16 + d;
+                            num = num.and_then(|x| x.checked_mul(16)?.checked_add(d));
+                            float_num = float_num * 16. + d as f64;
                             let Some(peek) = ps.peek::<0>() else { break };
                             if !is_ident_char(peek) {
                                 break;
@@ -818,9 +828,15 @@ impl Expression {
                                 return None;
                             }
                         }
-                        return Some(Box::new(Expression::LitInt {
-                            value: num,
-                            location: pos..ps.position(),
+                        return Some(Box::new(match num {
+                            Some(value) => Expression::LitInt {
+                                value,
+                                location: pos..ps.position(),
+                            },
+                            None => Expression::LitFloat {
+                                value: float_num,
+                                location: pos..ps.position(),
+                            },
                         }));
                     }
                     Some('e') | Some('.') | Some('8') | Some('9') => {
@@ -842,7 +858,8 @@ impl Expression {
             }
 
             // parse as normal DEC
-            let mut int = Some(0);
+            let mut int = Some(0i64);
+            let mut int_overflow = false;
             loop {
                 let next = ps.next().unwrap();
                 if next == 'e' {
@@ -876,7 +893,10 @@ impl Expression {
                     // '0'..='9'
                     if let Some(x) = int.as_mut() {
                         let d = next as i64 - '0' as i64;
-                        *x = *x * 10 + d;
+                        match x.checked_mul(10).and_then(|x| x.checked_add(d)) {
+                            Some(v) => *x = v,
+                            None => int_overflow = true,
+                        }
                     }
                 }
                 let Some(peek) = ps.peek::<0>() else { break };
@@ -891,6 +911,10 @@ impl Expression {
                     );
                     return None;
                 }
+            }
+            if int_overflow {
+                // too large for an integer literal: keep the value as a float, as JavaScript does
+                int = None;
             }
             let num = match int {
                 None => {
